@@ -168,9 +168,42 @@ def val_in(v):
     return float("nan") if v is None else v
 
 
-def apply_user_op(net, op):
+def _scale_property(prop, f):
+    """change a property's parameters in place (same property object)"""
+    from scipy.interpolate import interp1d
+    d = prop.__dict__
+    if "value" in d and isinstance(d["value"], (int, float, np.floating)):
+        prop.value = float(d["value"]) * f
+    elif "slope" in d and "offset" in d:
+        prop.offset = float(d["offset"]) * f
+        prop.slope = float(d["slope"]) * f
+    elif "prop_getter" in d and hasattr(d["prop_getter"], "x") and hasattr(d["prop_getter"], "y"):
+        g = d["prop_getter"]
+        prop.prop_getter = interp1d(np.array(g.x), np.array(g.y) * f, fill_value="extrapolate")
+    else:
+        for k, v in d.items():
+            if isinstance(v, (float, np.floating)):
+                setattr(prop, k, float(v) * f)
+                return
+        raise ValueError("no parameter to scale in %s" % type(prop).__name__)
+
+
+def apply_user_op(net, op, net0=None):
+    """net0: the pristine net (restore operations take deep copies of its objects)"""
     import pandapipes as pp
-    if op[0] == "edit":
+    if op[0] == "fluid_const":            # replace a property object on the same Fluid
+        pp.create_constant_property(net, op[1], val_in(op[2]), overwrite=True)
+    elif op[0] == "fluid_scale":          # change a property's parameters in place
+        _scale_property(net.fluid.all_properties[op[1]], op[2])
+    elif op[0] == "fluid_restore":        # put (a copy of) the original property object back
+        net.fluid.all_properties[op[1]] = copy.deepcopy(net0.fluid.all_properties[op[1]])
+    elif op[0] == "fluid_swap":           # another library fluid on the net (and back)
+        pp.create_fluid_from_lib(net, op[1], overwrite=True)
+    elif op[0] == "fluid_original":
+        net["fluid"] = copy.deepcopy(net0["fluid"])
+    elif op[0] == "stdtype_swap":         # standard-type object replaced by (a copy of) another one
+        net.std_types[op[1]][op[2]] = copy.deepcopy(net0.std_types[op[1]][op[3]])
+    elif op[0] == "edit":
         _, t, row, col, val = op
         net[t].at[row, col] = val_in(val)
     elif op[0] == "setopts":
